@@ -1,4 +1,81 @@
-From AK Require Import Base.Prelude Bytes.FabHeaderProofs.
-Theorem C04_stub : forall z, Text.py_int (Text.str_of_Z z) = Some z.
-Proof. exact py_int_str_of_Z. Qed.
-Print Assumptions C04_stub.
+(* C04 - taste rejects missing, truncated, shifted or inconsistent plotfile
+   data.  Stated as SOUNDNESS of the validator over ARBITRARY directory
+   contents: whatever it reports good is consistent; every listed corruption
+   class destroys one of the conclusions below, hence is rejected.
+   Statements only. *)
+From AK Require Import Base.Prelude Bytes.Text Bytes.FabHeader Bytes.BinFile
+  Reader.Select Reader.BoxRead Reader.Level Plotfile.TextHeader
+  Taste.Taste Taste.TasteSpec Taste.SoundProofs.
+
+(* "good" implies: the global header opens, every validated level has its
+   directory and a level header that parses with the right field count
+   (a missing / unparsable entry, a dropped index or FabOnDisk line, a wrong
+   component count make p_cellh fail), all named binaries exist, and the
+   enabled binary checks passed on every validated level.  In failing mode
+   "not good" raises, in non-failing mode it evaluates false without raising:
+   both are the same boolean (Taster.__init__ catches every exception). *)
+Theorem C04_good_inv : forall o limit d, taste_good o limit d = true ->
+  exists ht op lvs,
+    pd_header d = Some ht /\ open_header ht limit = Some op /\
+    open_levels d op (t_data o) = Some lvs /\
+    Forall (fun lc => check_structure (fst lc) (snd lc) = true) lvs /\
+    (t_headers o = true -> Forall (fun lc => check_headers (blen (o_keys op)) (fst lc) (snd lc) = true) lvs) /\
+    (t_shape o = true -> Forall (fun lc => check_shape (blen (o_keys op)) (fst lc) (snd lc) = true) lvs) /\
+    (t_data o = true -> t_headers o = true /\ t_shape o = true).
+Proof. exact taste_good_inv. Qed.
+Print Assumptions C04_good_inv.
+
+Theorem C04_levels_open : forall d op mm lvs, open_levels d op mm = Some lvs ->
+  Forall2 (fun lb lc => lookup_dir (lb_cell_dir lb) (pd_dirs d) = Some (fst lc) /\
+             exists t rest, ld_cellh (fst lc) = Some t /\ p_cellh (blen (o_keys op)) mm t = Some (snd lc, rest))
+          (o_levels op) lvs.
+Proof. exact open_levels_inv. Qed.
+Print Assumptions C04_levels_open.
+
+(* missing binary file *)
+Theorem C04_missing_file : forall (lc : ldir * cellh) f,
+  check_structure (fst lc) (snd lc) = true -> In f (c_files (snd lc)) ->
+  exists content, lookup f (ld_files (fst lc)) = Some content.
+Proof. exact taste_rejects_missing_file. Qed.
+Print Assumptions C04_missing_file.
+
+Theorem C04_missing_header : forall o limit d, pd_header d = None -> taste_good o limit d = false.
+Proof. exact taste_rejects_missing_header. Qed.
+Print Assumptions C04_missing_header.
+
+(* index range / component count / unreadable position: at every recorded
+   (file, offset) a header line can be read that names exactly the level
+   header's index range and the plotfile's field count *)
+Theorem C04_headers_sound : forall nf ld c b, check_headers nf ld c = true -> In b (cell_boxes c) ->
+  exists f h, lookup (br_file b) (ld_files ld) = Some f /\ 0 <= br_off b /\
+    parse_hdr (readline f (br_off b)) = Some h /\ h_lo h = br_lo b /\ h_hi h = br_hi b /\ h_nc h = nf /\
+    exists shp, hdr_shape h = Some shp.
+Proof. exact check_headers_sound. Qed.
+Print Assumptions C04_headers_sound.
+
+(* truncated / extended / data inserted or removed / wrong shape: an accepted
+   file is EXACTLY a sequence of FABs, one per box the level header assigns to
+   it, each payload of the size its header announces, each header after the
+   first exactly the header of the corresponding box *)
+Theorem C04_shape_sound : forall nf ld c name f,
+  lookup name (ld_files ld) = Some f -> file_boxes c name <> [] -> shape_ok_file nf ld c name = true ->
+  0 <= nf -> Forall box_valid (file_boxes c name) ->
+  (forall hd shp, parse_hdr (readline f 0) = Some hd -> hdr_shape hd = Some shp -> 0 <= zprod shp * h_nc hd) ->
+  file_tiled nf f (file_boxes c name).
+Proof. exact shape_ok_file_tiled. Qed.
+Print Assumptions C04_shape_sound.
+
+Theorem C04_shape_every_file : forall nf ld c name, check_shape nf ld c = true -> In name (c_files c) ->
+  shape_ok_file nf ld c name = true /\ exists f, lookup name (ld_files ld) = Some f.
+Proof. exact check_shape_sound. Qed.
+Print Assumptions C04_shape_every_file.
+
+(* an accepted file extended by any non-empty bytes is rejected - so of a
+   file and any of its proper truncations at most one is accepted *)
+Theorem C04_extension_rejected : forall nf ld c name f extra,
+  lookup name (ld_files ld) = Some f -> extra <> [] -> file_boxes c name <> [] ->
+  In nl f ->
+  shape_ok_file nf ld c name = true ->
+  forall ld', lookup name (ld_files ld') = Some (f ++ extra) -> shape_ok_file nf ld' c name = false.
+Proof. exact shape_ok_file_length. Qed.
+Print Assumptions C04_extension_rejected.
